@@ -312,7 +312,14 @@ def main(tier):
     # the name section (custom sections may stand anywhere) at every section boundary instead of at the end: read with -g before the sections
     # it talks about have been seen
     import wasmparse as wpn
-    for n, d in [x for x in hb if x[0] == 'hand-names'] + [('debug-name module', name_module(b'helper', 'debug-name'))]:
+    def names_for_imports_only():
+        m_ = Module()
+        m_.import_func('env', 'f', '', ''); m_.import_func('env', 'g', 'i', 'i')
+        h_ = m_.add_func('i', 'i', (), local_get(0) + call(1))
+        m_.add_func('i', 'i', (), local_get(0) + call(h_), export='e')
+        m_.names = {0: 'first_import', 1: 'second_import'}       # only the imports are named: such a name section is complete as soon as the imports are known
+        return m_.encode()
+    for n, d in [x for x in hb if x[0] == 'hand-names'] + [('debug-name module', name_module(b'helper', 'debug-name')), ('names for the imports only', names_for_imports_only())]:
         hdr_, secs_ = wpn.parse(d)
         ns_ = [s_ for s_ in secs_ if s_.id == 0 and b''.join(c.emit() for c in s_.sized.children)[:5] == b'\x04name']
         rest_ = [s_ for s_ in secs_ if s_ not in ns_]
